@@ -21,7 +21,7 @@ def key(e):
     if k == "int":
         return str(e.get("v", e.get("vs")))
     c = e.get("cv")
-    if c is not None and k in ("sizeof", "bin", "un", "cond") and not _has_side_effects(e):
+    if c is not None and k in ("sizeof", "offsetof", "bin", "un", "cond") and not _has_side_effects(e):
         return str(c)
     if k == "member":
         return key(e["base"]) + ("->" if e["arrow"] else ".") + e["field"]
